@@ -14,6 +14,7 @@ def run(rep):
     m2(rep, w)
     m3(rep, w)
     m4(rep, w)
+    m4b(rep, w)
     c08.x9(rep, w)     # the active module is re-read from the frame whenever the frame list changes (unwinding out of another module)
     c08.x7(rep, w)     # an ImportError that was delivered to a handler must not be followed by further pushes in the import handler
 
@@ -140,6 +141,15 @@ def m4(rep, w):
             ok = ok and okb is not None and all(okb in dom.get(rg, ()) for rg in reg)
         r.check(ok, 'registration is dominated by the Ok arm of %s' % what, 'the module is registered before %s has succeeded: when it fails the registry keeps an entry that '
                 'was never loaded, and every later import of that path reports a circular dependency' % what, f.loc())
+
+
+def m4b(rep, w):
+    r = rep.rule('M4c', 'compiling source never registers a module: Vm::module (get-or-create) is not reachable from compiler::compile', floor=1)
+    reach = w.can_reach({VM + 'module'})
+    comp = w.require_fn('yarel::compiler::compile', 'C14')
+    via = sorted(p_ for p_ in reach if p_.startswith('yarel::compiler::') or p_.startswith('yarel::scanner::'))
+    r.check(comp.path not in reach, 'compile() cannot reach Vm::module', 'compile() can reach the get-or-create registry accessor Vm::module (through %s): source that fails to compile '
+            'leaves a registered, never-imported module behind and every later import of that path reports a circular dependency' % via[:4], comp.loc())
 
 
 def m2(rep, w):
